@@ -61,7 +61,17 @@ func init() {
 			{Name: "c20.v4.range", Impl: func(a []string) string {
 				i, s, e := c20v4(a[:5]), c20v4(a[5:10]), c20v4(a[10:])
 				r := i.IsInRange(s, e)
-				if (&ip.IPv4Range{Start: s, End: e}).Contains(i) != r {
+				rg := &ip.IPv4Range{Start: s, End: e}
+				if c13Used(a) { // history: the range object has answered with other bounds before (replaced, or edited in place)
+					rg = &ip.IPv4Range{Start: ip.NewIPv4(10, 0, 0, 0, 32), End: ip.NewIPv4(10, 0, 0, 255, 32)}
+					rg.Contains(i)
+					if i.D&1 == 0 {
+						rg.Start, rg.End = s, e
+					} else {
+						*rg.Start, *rg.End = *s, *e
+					}
+				}
+				if rg.Contains(i) != r {
 					panic("IPv4Range.Contains and IsInRange differ")
 				}
 				return okBool(r)
@@ -100,7 +110,17 @@ func init() {
 			{Name: "c20.v6.range", Impl: func(a []string) string {
 				i, s, e := c20v6(a[:8]), c20v6(a[8:16]), c20v6(a[16:])
 				r := i.IsInRange(s, e)
-				if (&ip.IPv6Range{Start: s, End: e}).Contains(i) != r {
+				rg := &ip.IPv6Range{Start: s, End: e}
+				if c13Used(a) { // history, as for IPv4
+					rg = &ip.IPv6Range{Start: ip.NewIPv6(0xfe80, 0, 0, 0, 0, 0, 0, 1), End: ip.NewIPv6(0xfe80, 0, 0, 0, 0, 0, 0, 0xffff)}
+					rg.Contains(i)
+					if i.H&1 == 0 {
+						rg.Start, rg.End = s, e
+					} else {
+						*rg.Start, *rg.End = *s, *e
+					}
+				}
+				if rg.Contains(i) != r {
 					panic("IPv6Range.Contains and IsInRange differ")
 				}
 				return okBool(r)
